@@ -274,6 +274,39 @@ var extReadOnly = map[string]bool{
 // byte slice only reads it)
 var extFreshResult = map[string]bool{"bytes.NewReader": true, "strings.NewReader": true}
 
+// library functions that read or write process-global state shared by all goroutines (the
+// default math/rand source, the environment, the working directory, flag and log defaults):
+// counted as a write of the pseudo package-level variable named here
+func extGlobalState(name string) string {
+	i := strings.LastIndex(name, ".")
+	if i < 0 {
+		return ""
+	}
+	pkg, fn := name[:i], name[i+1:]
+	switch pkg {
+	case "math/rand", "math/rand/v2":
+		if !strings.HasPrefix(fn, "New") {
+			return pkg + ".<default source>"
+		}
+	case "os":
+		switch fn {
+		case "Setenv", "Unsetenv", "Clearenv", "Chdir", "Exit":
+			return "os.<process state>"
+		}
+	case "flag":
+		return "flag.<CommandLine>"
+	case "log":
+		if !strings.HasPrefix(fn, "New") {
+			return "log.<default logger>"
+		}
+	case "time":
+		if fn == "Now" || fn == "Since" || fn == "Until" {
+			return "time.<clock>" // not a race, but the result is no longer a function of the arguments
+		}
+	}
+	return ""
+}
+
 // only this root of the callee ("recv" or "p<i>") is written, the other arguments are read
 var extWritesOnly = map[string]string{
 	"fmt.Fprint": "p0", "fmt.Fprintf": "p0", "fmt.Fprintln": "p0", "io.WriteString": "p0",
@@ -1198,6 +1231,13 @@ func (a *analyser) call(x *ast.CallExpr) {
 			a.unknown(x.Pos(), "interface method %s has no implementation in the repository", ci.name)
 		}
 	case ckExternal:
+		if ci.recv == nil {
+			if gs := extGlobalState(ci.name); gs != "" {
+				a.fi.gwrites[gs] = true
+				a.fi.dwrites["g:"+gs] = true
+				a.fi.extwrites[ci.name] = true
+			}
+		}
 		if !shared || extReadOnly[ci.name] {
 			return
 		}
